@@ -92,6 +92,7 @@ def regular_ish_polygon(rng, m):
         6: [(1, 0), (2, 0), (3, 1), (2, 2), (1, 2), (0, 1)],
         7: [(1, 0), (2, 0), (3, 1), (3, 2), (2, 3), (1, 3), (0, 1)],
         8: [(1, 0), (2, 0), (3, 1), (3, 2), (2, 3), (1, 3), (0, 2), (0, 1)],
+        10: [(1, 0), (3, 0), (4, 1), (5, 3), (4, 5), (3, 6), (1, 6), (0, 5), (-1, 3), (0, 1)],
     }
     for _ in range(100):
         p = rpt(rng, 3, (1, 2))
@@ -99,9 +100,9 @@ def regular_ish_polygon(rng, m):
         v = rdir(rng, 2)
         if not nz(cross(u, v)):
             continue
-        s = rng.choice((F(1, 2), F(1), F(1)))
+        s = rng.choice((F(1, 2), F(1), F(1))) if m < 10 else F(1, 2)
         d = ("PG", tuple(add(p, add(mul(u, s * a), mul(v, s * b))) for a, b in shapes[m]))
-        if ok_coords(d):
+        if ok_coords(d, 8, 16 if m == 10 else 12):
             return d
     return rand_polygon(rng)
 
@@ -188,8 +189,28 @@ def general_hull(rng, kmin=5, kmax=9):
             return d
 
 
+def big_prism(rng):
+    """prism over a lattice decagon: 12 faces, 20 vertices"""
+    for _ in range(50):
+        base = regular_ish_polygon(rng, 10)
+        if len(base[1]) != 10:
+            continue
+        n = K.polygon_normal(base[1])
+        h = rdir(rng, 2)
+        if dot(h, n) == 0:
+            continue
+        d = K.hull3d(list(base[1]) + [add(v, h) for v in base[1]])
+        if d and ok_coords(d, 8, 16):
+            return d
+    return None
+
+
 def rand_polyhedron(rng, small=False):
     r = rng.random()
+    if not small and rng.random() < 0.06:
+        d = big_prism(rng)
+        if d is not None:
+            return d
     if small:
         if r < 0.5:
             return tetra(rng)
